@@ -204,9 +204,13 @@ def run(ctx):
         "or refuse it",
         "refines_run / history_answers are about histories whose handler calls do not overlap (one call = one step). "
         "Overlapping calls: the WRITERS REGISTER, UNREGISTER channel, /topic/create|delete, /channel/create are one critical "
-        "section each on this tree (facts; concurrent_schedules_linearizable_tree) and so linearize; the READERS GET /lookup "
+        "section each on this tree (facts; concurrent_schedules_linearizable_tree: key set of a serial order, for c != '' and "
+        "t != '*'; the whole DB in concurrent_register_delete_linearizable_fixed / concurrent_create_delete_linearizable_fixed; "
+        "unregister_shape holds no Lock fact for RemoveProducerAndPrune and no theorem is stated over unregisterAtomic / "
+        "tombstoneAtomic - for these the race legs are the check) and so linearize; the READERS GET /lookup "
         "and GET /nodes are one critical section each since F37 (/repo 682420a; facts: readers_atomic): "
-        "concurrent_readers_linearizable_this_tree - their answers are those of one state of the writers' serial order, for "
+        "concurrent_readers_linearizable_this_tree - the registry part of their answers (lookupDB / nodesDB; PING's lastUpdate "
+        "stamp lives outside the lock and outside the section model) is that of one state of the writers' serial order, for "
         "every schedule. The `…_false` theorems (concurrent_lookup_delete_linearizable_false, "
         "concurrent_nodes_delete_linearizable_false, concurrent_schedules_linearizable_unfixed_false) are about the shapes "
         "BEFORE the fixes; their findings are listed `fixed` and replayed on every run (a reproduction is a VIOLATION). "
